@@ -269,11 +269,13 @@ func kinds(want []string) string {
 
 func runGenerated(c *engine.Ctx) {
 	if c.Quick() {
-		runGeneratedBound(c, 3, 5, 0)
-		runGeneratedBound(c, 4, 3, 4) // only the schemas with exactly 4 nodes
+		runGeneratedBound(c, 3, 5, 0, false)
+		runGeneratedBound(c, 4, 3, 4, false) // only the schemas with exactly 4 nodes
+		runGeneratedBound(c, 3, 4, 0, true)  // names shared between levels
 		return
 	}
-	runGeneratedBound(c, 4, 6, 0)
+	runGeneratedBound(c, 4, 6, 0, false)
+	runGeneratedBound(c, 4, 5, 0, true)
 }
 
 func schemaCost(kids []*S) int {
@@ -287,17 +289,21 @@ func schemaCost(kids []*S) int {
 	return n
 }
 
-func runGeneratedBound(c *engine.Ctx, sb, db, onlyCost int) {
+// shared: the schemas are renamed so that names are unique among siblings only (RenameShared).
+func runGeneratedBound(c *engine.Ctx, sb, db, onlyCost int, shared bool) {
 	all := genSchemas(sb)
-	c.Note(fmt.Sprintf("%d generated schemas of <= %d nodes, data trees of <= %d nodes", len(all), sb, db))
+	c.Note(fmt.Sprintf("%d generated schemas of <= %d nodes, data trees of <= %d nodes, names shared between levels: %v", len(all), sb, db, shared))
 	for gi, kids := range all {
+		if shared {
+			kids = RenameShared(kids)
+		}
 		if c.Expired() {
 			return
 		}
 		if onlyCost > 0 && schemaCost(kids) != onlyCost {
 			continue
 		}
-		if !c.Owns(fmt.Sprintf("gen:%d", gi)) {
+		if !c.Owns(fmt.Sprintf("gen:%d:%v", gi, shared)) {
 			continue
 		}
 		if _, msg := compileKids(kids); msg != "" {
@@ -308,7 +314,7 @@ func runGeneratedBound(c *engine.Ctx, sb, db, onlyCost int) {
 		c.Add("schemas", 1)
 		trees := combos(dataNodes(kids), db)
 		for ti, t := range trees {
-			id := fmt.Sprintf("g%d/%d:%d:%d", sb, db, gi, ti)
+			id := fmt.Sprintf("g%d/%d:%d:%d:%v", sb, db, gi, ti, shared)
 			if !c.Case(id) {
 				continue
 			}
